@@ -17,6 +17,7 @@ package sparseindex
 import (
 	"errors"
 	"fmt"
+	"math"
 
 	"github.com/openGemini/openGemini/engine/immutable/colstore"
 	"github.com/openGemini/openGemini/lib/errno"
@@ -133,10 +134,17 @@ func (r *PKIndexReaderImpl) createFieldRefFunc(
 	primaryKey record.Schemas,
 	usedKeySize int,
 ) (createFieldRef func(int, int, *FieldRef)) {
+	// The rows of a file are in the order of record.SortHelper.SortForColumnStore, which sorts a null key as the
+	// smallest value it knows for the type (lib/record/sort_item.go Pad*Slice). A null index cell is read as that
+	// value, so that the index is ordered the way the data is.
+	nullPadColumns := make([]*ColumnRef, usedKeySize)
 	doCreateFieldRef := func(row int, column int, field *FieldRef, cols []*ColumnRef) {
 		field.Set(cols, column, row)
-		if field.IsNull() {
+		if row >= cols[column].column.Len {
+			// a row behind the index record (an index without a trailing last-key row): no upper bound is known
 			field.SetPositiveInfinity()
+		} else if field.IsNull() {
+			field.Set(nullPadColumns, column, 0)
 		}
 	}
 
@@ -146,11 +154,31 @@ func (r *PKIndexReaderImpl) createFieldRefFunc(
 			column:   index.Column(i),
 			name:     primaryKey[i].Name,
 			dataType: primaryKey[i].Type}
+		nullPadColumns[i] = &ColumnRef{
+			column:   nullPadColumn(primaryKey[i].Type),
+			name:     primaryKey[i].Name,
+			dataType: primaryKey[i].Type}
 	}
 	createFieldRef = func(row int, column int, field *FieldRef) {
 		doCreateFieldRef(row, column, field, indexPartColumns)
 	}
 	return
+}
+
+// nullPadColumn returns a one-row column holding the value the column store's sort uses in place of a null key.
+func nullPadColumn(dataType int) *record.ColVal {
+	col := &record.ColVal{}
+	switch dataType {
+	case influx.Field_Type_Int:
+		col.AppendInteger(math.MinInt64)
+	case influx.Field_Type_Float:
+		col.AppendFloat(-math.MaxFloat64)
+	case influx.Field_Type_Boolean:
+		col.AppendBoolean(false)
+	default:
+		col.AppendString("")
+	}
+	return col
 }
 
 // doBinarySearch does binary search to get the target ranges
